@@ -331,8 +331,11 @@ class EGen(Gen):
                 if gs and r.random() < 0.6:
                     g = r.choice(gs)
                     fd["body"] = M.seq(M.flatten(fd["body"]) + [("retcall", g, [self.atom() for _ in range(funcs[g]["nparams"])], self.cs_id())])
+                elif self.safe_returns:
+                    fd["body"] = M.seq(M.flatten(fd["body"]) + [self.ret()])
         return self.p
 
+    safe_returns = False   # stream err-safe: plain returns never return nil
     p_ok = 0.3        # share of error-returning functions spelled (value, ok bool)
     p_named = 0.3     # ... with named results
     p_forward = 0.4   # share of the returns of an error-returning function that forward a callee directly
@@ -354,6 +357,9 @@ class EGen(Gen):
             if gs:
                 g = self.rng.choice(gs)
                 return ("retcall", g, [self.atom() for _ in range(self.p["funcs"][g]["nparams"])], self.cs_id())
+        if fd["err"] and self.safe_returns:
+            # every plain return hands back a fresh value, with or without an error ("always safe" functions)
+            return ("return2", "new", "nil" if self.rng.random() < 0.6 else "new")
         if fd["err"]:
             r = self.rng.random()
             if r < 0.45:
@@ -369,7 +375,7 @@ class EGen(Gen):
         if fd["err"]:
             # forwarding the callee's error (inside its own check); an ok result is only ever a constant
             same = self.p["funcs"][self.f]["ltypes"].get(xe[1]) == "E" and not fd.get("okform")
-            return ("return2", "nil", xe if same and self.rng.random() < 0.6 else "new")
+            return ("return2", "new" if self.safe_returns else "nil", xe if same and self.rng.random() < 0.6 else "new")
         return ("return", "nil")
 
     def errcallees(self, forward_only=True):
@@ -1193,6 +1199,9 @@ def gen_cases(rng, n, streams=("random", "guarded", "lone", "lone-simple"), pref
             g = IGen(rng, methods=False)
         elif stream.startswith("err"):
             g = EGen(rng, methods=False, globals_=False)
+            if stream == "err-safe":
+                g.safe_returns = True
+                g.max_pkgs = 1 if rng.random() < 0.7 else g.max_pkgs
         else:
             g = Gen(rng, globals_=not simple, max_funcs=3 if simple else 5, simple=simple, methods=not simple)
         p = g.program()
